@@ -72,9 +72,13 @@ type SrvPlan struct {
 	PingTimeoutMS int `json:"ping_timeout_ms"`
 	DialTimeoutMS int `json:"dial_timeout_ms"`
 	// workload
-	Txs      []NetTx `json:"txs,omitempty"`
-	MaxTxPB  int     `json:"max_tx_per_block,omitempty"`
-	TailSeed uint64  `json:"tail_seed"`
+	Txs     []NetTx `json:"txs,omitempty"`
+	MaxTxPB int     `json:"max_tx_per_block,omitempty"`
+	// NoCompress: node (index+1) that runs with P2P.DisableCompression; Direct: nodes whose RPC server relays a
+	// submitted transaction directly (RPC.DirectRelay: the transaction itself is broadcast, not its hash)
+	NoCompress int    `json:"no_compress,omitempty"`
+	Direct     uint8  `json:"direct,omitempty"`
+	TailSeed   uint64 `json:"tail_seed"`
 }
 
 // srvFraction: which share of the C19/C20/C07 plans are server-mode plans (VERIF_SRV=1: all, VERIF_SRV=0: none).
@@ -105,6 +109,11 @@ func drawSrv(rt *rapid.T, p *Plan, prop, tier string) *Plan {
 		sp.Observers = 1
 		sp.Sync = rapid.IntRange(0, 3).Draw(rt, "srv_faulty7") != 3
 	}
+	// VERIF_SRV_CFG=sync|faithful|lossy (measuring aid): only that configuration
+	cfgOnly := os.Getenv("VERIF_SRV_CFG")
+	if cfgOnly != "" {
+		sp.Sync = cfgOnly == "sync"
+	}
 	// (intervals that are not multiples of one another: two timers of one node that expire at the same simulated
 	// instant are served in an order no plan controls)
 	sp.ProtoTickMS = []int{1013, 509, 1987}[rapid.IntRange(0, 2).Draw(rt, "srv_tick")]
@@ -118,6 +127,9 @@ func drawSrv(rt *rapid.T, p *Plan, prop, tier string) *Plan {
 		sp.DurationMS = 21000
 	} else {
 		sp.Lossy = rapid.IntRange(0, 2).Draw(rt, "srv_lossy") == 2
+		if cfgOnly != "" {
+			sp.Lossy = cfgOnly == "lossy"
+		}
 		sp.MaxDelayMS = []int{20, 100, 400, 1200}[rapid.IntRange(0, 3).Draw(rt, "srv_delayc")]
 		sp.DurationMS = rapid.IntRange(8, 24).Draw(rt, "srv_dur") * 1000
 		if sp.Lossy {
@@ -206,6 +218,15 @@ func drawSrv(rt *rapid.T, p *Plan, prop, tier string) *Plan {
 			t.Defect = rapid.IntRange(1, numDefects-1).Draw(rt, "srv_defect")
 		}
 		sp.Txs = append(sp.Txs, t)
+	}
+	if rapid.IntRange(0, 3).Draw(rt, "srv_wirecfg") == 3 {
+		sp.NoCompress = rapid.IntRange(0, total0).Draw(rt, "srv_nocompress")
+		sp.Direct = uint8(rapid.IntRange(1, 31).Draw(rt, "srv_direct"))
+		// a transaction whose encoding is longer than the compression threshold (a deployment), through a direct relay
+		nd := rapid.IntRange(1, 2).Draw(rt, "srv_ndeploy")
+		for i := 0; i < nd; i++ {
+			sp.Txs = append(sp.Txs, NetTx{AtMS: rapid.IntRange(3000, sp.DurationMS-2000).Draw(rt, "srv_deployat"), Op: Op{Kind: OpDeploy, A: i, B: i, X: i}, Targets: sp.Direct})
+		}
 	}
 	sort.SliceStable(sp.Txs, func(i, j int) bool { return sp.Txs[i].AtMS < sp.Txs[j].AtMS })
 	sp.TailSeed = rapid.Uint64Range(0, 1<<40).Draw(rt, "srv_tailseed")
@@ -578,6 +599,24 @@ func (s *srvSim) arrive(p *simPkt, dup bool) {
 		s.ns.at(at, func() { s.arrive(p, dup) })
 		return
 	}
+	if !s.sp.Lossy {
+		// tcp-faithful: strictly in sequence (a segment that was held back by a blackhole holds back what follows it)
+		if p.seq != l.expect[p.dir]+1 {
+			if l.early[p.dir] == nil {
+				l.early[p.dir] = map[uint64]*simPkt{}
+			}
+			l.early[p.dir][p.seq] = p
+			r.out.Probes["pkt_waited_for_its_predecessor"]++
+			return
+		}
+		l.expect[p.dir] = p.seq
+		defer func() {
+			if nx, ok := l.early[p.dir][p.seq+1]; ok {
+				delete(l.early[p.dir], p.seq+1)
+				s.arrive(nx, false)
+			}
+		}()
+	}
 	if p.fin {
 		r.out.Probes["connection_closed_by_peer"]++
 		if netDebug {
@@ -749,6 +788,13 @@ func (r *run) runSrv() {
 		sn := s.nodes[v.idx]
 		if !sn.up || sn.srv == nil {
 			return fmt.Errorf("node is down")
+		}
+		if sp.Direct&(1<<uint(v.idx)) != 0 {
+			r.out.Probes["tx_relayed_directly"]++
+			if tx.Size() > network.CompressionMinSize {
+				r.out.Probes["tx_relayed_directly_above_compression_threshold"]++
+			}
+			return sn.srv.RelayTxnDirectly(tx)
 		}
 		return sn.srv.RelayTxn(tx)
 	}
